@@ -1,4 +1,3 @@
-#!/usr/bin/env python3
 """Regenerate /verif/MANIFEST.json from the table below (keeps it valid at all times)."""
 import json
 import subprocess
@@ -10,6 +9,9 @@ sys.path.insert(0, str(V / "lib"))
 
 LEVEL = {
  "C01": ("model_checking", "TLC enumerates hand-encoded packages from the format model (Gen_Hdr: layout grid, raw entries with hostile fields, intro/lead/padding variants) for the real parser; every observation (assets, built/signed/cleared packages, seeded structure-aware mutants, generated cases) is validated by Trace_Pkg, which recomputes from the input bytes where the written bytes may differ (reserved intro bytes, signature padding) and demands re-parse/re-write fixpoint.", "3.C01"),
+ "C02": ("model_checking", "verification is a state machine (Begin / Consult / Return) whose Return(ok) guard is the statement of C02; TLC explores it against an arbitrary implementation (MC) and replays the consultations logged by a recording implementation of the public Verifying trait for every generated signature-header shape x verdict pattern, plus real-key packages tampered bit-wise and by digest-consistent forgeries.", "3.C02"),
+ "C03": ("model_checking", "the digest decision (Allowed) is stated over the abstract state of the four recorded digests; MC shows a step-machine verifier refines it on the complete table; TLC generates the table, the harness materialises every row on a hand-encoded package and re-derives the state of bit-flipped real packages with its own decoder and hashing; Trace_C03 judges every outcome.", "3.C03"),
+ "C10": ("model_checking", "SignHistory state machine model-checked for all histories up to length 5; TLC generates every history with expected observations; the harness walks them as a prefix tree with the four real keys and Trace_C10 replays every observed step through the state machine.", "3.C10"),
  "C05": ("model_checking", "Trace_Pkg decodes each well-formed header independently from its raw bytes (HeaderFormat/PackageFile: accessor table) and compares every accessor and Header::get_entry_data_as_* result; inputs are assets, built packages and TLC-enumerated typed headers (every accessor tag x data type x count, triples with missing / wrongly typed members, directory indexes in and out of range).", "3.C05"),
  "C09": ("model_checking", "rpm's header-loading rules (HdrChk, LeadOk, signature padding) transcribed in TLA+ are evaluated by TLC on the raw bytes of every package the builder / signer emits in the run; the payload archive rules are checked by the cpio model (C07 scenario) on the same packages.", "3.C09"),
  "C13": ("model_checking", "RpmVerCmp is rpm's algorithm in small-step and big-step form, model-checked against a second definition (token-key order) with antisymmetry/transitivity; the real Evr/Nevra ordering is recorded on the complete bounded domain plus seeded long strings and validated event by event by TLC.", "3.C13"),
@@ -24,13 +26,10 @@ NOTE = "trusted base: TLC 1.8.0 and the CommunityModules Json/IOUtils overrides;
 TECH = "explicit TLA+ specification, TLC model checking + trace validation of the implementation (and TLC-generated cases replayed into it)"
 
 NOT_YET = {
- "C02": "check under construction in this session (Signature spec) - not claimed yet",
- "C03": "check under construction in this session (Digests spec) - not claimed yet",
  "C04": "check under construction in this session (parser state machine + child-process monitor) - not claimed yet",
  "C06": "check under construction in this session (Builder spec) - not claimed yet",
  "C07": "check under construction in this session (Cpio spec) - not claimed yet",
  "C08": "check under construction in this session - not claimed yet",
- "C10": "check under construction in this session (SignHistory spec) - not claimed yet",
  "C11": "check under construction in this session - not claimed yet",
  "C12": "check under construction in this session (Extract spec) - not claimed yet",
  "C14": "check under construction in this session (IoSink spec) - not claimed yet",
@@ -38,7 +37,7 @@ NOT_YET = {
 
 
 def main():
-    import props  # noqa
+    import props
     claimed = sorted(p for p in LEVEL if p in props.REGISTRY)
     checks = []
     for p in claimed:
